@@ -134,6 +134,11 @@ HoldExit(f) ==               \* f = "ok" | "fail": the body returns Ok / Err
     /\ held' = SubSeq(held, 1, Len(held) - 1)
     /\ UNCHANGED guards
 
+InnerState(t, v, f) ==       \* with_inner_state: push a scope, run the body (inserts t := v there), pop it again;
+                             \* f = "ok" | "fail": the body returns Ok / Err.  Either way the caller's chain is as before.
+    /\ res' = R(IF f = "ok" THEN "ok" ELSE "err", v)
+    /\ UNCHANGED <<scopes, guards, held>>
+
 ---------------------------------------------------------------------------
 RegistryMutOps == {"insert", "remove", "get_mut", "entry", "push", "pop"}
 
@@ -149,6 +154,7 @@ DoB(a) ==
       [] a.op = "hold_enter" -> act' = a /\ HoldEnter(a.t)
       [] a.op = "hold_write" -> act' = a /\ HoldWrite(a.v)
       [] a.op = "hold_exit"  -> act' = a /\ HoldExit(a.f)
+      [] a.op = "inner"      -> act' = a /\ InnerState(a.t, a.v, a.f)
       [] OTHER -> Do(a) /\ UNCHANGED <<guards, held>>      \* plain registry call
 
 (* what the caller can issue in the current state *)
@@ -169,6 +175,7 @@ MutActs ==
     \cup {BA("multi", NoT, NoVal, NoVal, 0, f, ts, [j \in 1..Len(ts) |-> (j % 2)]) :
              ts \in Tuples, f \in {"try_get_multiple_mut", "get_multiple_mut"}}
     \cup {BA("hold_enter", t, NoVal, NoVal, 0, "-", <<>>, <<>>) : t \in Type}
+    \cup {BA("inner", t, v, NoVal, 0, f, <<>>, <<>>) : t \in Type, v \in Val, f \in {"ok", "fail"}}
     \cup (IF Len(held) > 0
           THEN {BA("hold_write", NoT, v, NoVal, 0, "-", <<>>, <<>>) : v \in Val}
                \cup {BA("hold_exit", NoT, NoVal, NoVal, 0, f, <<>>, <<>>) : f \in {"ok", "fail"}}
@@ -276,6 +283,13 @@ HoldRoundTrip ==
              /\ scopes'[h.i][h.t] = h.v
              /\ held' = SubSeq(held, 1, Len(held) - 1)
              /\ \A c \in Cells : c # <<h.i, h.t>> => scopes'[c[1]][c[2]] = scopes[c[1]][c[2]] ]_bvars
+
+\* C01/C03: a scope pushed for an inner run is popped again whether the run succeeds or fails; what the run
+\* inserted lives in that scope only (and is handed back to the caller on success)
+InnerStateBalanced ==
+    [][ act'.op = "inner" => /\ scopes' = scopes /\ guards' = guards /\ held' = held
+                             /\ res'.k = (IF act'.f = "ok" THEN "ok" ELSE "err")
+                             /\ res'.v = act'.v ]_bvars
 
 BTypeOK == /\ scopes \in Seq(MapT) /\ Len0 >= 1
            /\ \A g \in Slots : guards[g].k \in {"-", "sh", "ex"}
